@@ -164,7 +164,7 @@ theorem no_event_of_chanFree (ch : Nat) (x : State) (cmds : List Command) (rcs :
   | evRerunB ty ch' e' h1 =>
     cases ho
     exact hr ty h1
-  | evRerunH h0 ch' e' h1 =>
+  | evRerunH h0 ch' e' h1 _ =>
     cases ho
     exact hr2 h0 h1
   | evCommand c ch' e' h1 h2 =>
